@@ -247,6 +247,7 @@ class WCS(GWCSAPIMixin):
         if from_ind + 1 != to_ind:
             raise ValueError("Frames {0} and {1} are not  in sequence".format(from_name, to_name))
         self._pipeline[from_ind].transform = transform
+        self._approx_inverse = None
 
     @property
     def forward_transform(self):
@@ -1162,6 +1163,7 @@ class WCS(GWCSAPIMixin):
         else:
             current_transform = self._pipeline[frame_ind].transform
             self._pipeline[frame_ind].transform = transform | current_transform
+        self._approx_inverse = None
 
     def insert_frame(self, input_frame, transform, output_frame):
         """
@@ -1218,6 +1220,7 @@ class WCS(GWCSAPIMixin):
                                Step(output_frame_obj, split_step.transform)] +
                               self._pipeline[input_index + 1:])
             super(WCS, self).__setattr__(output_name, output_frame_obj)
+        self._approx_inverse = None
 
     @property
     def unit(self):
